@@ -608,6 +608,18 @@ def run(ctx):
                              ('data', rc.enc_tlv(6, nm_ + rc.enc_tlv(0x15, b'c') + rc.enc_tlv(0x16, b'\x1b' + cut) + rc.enc_tlv(0x17, bytes(32)))),
                              ('lp', rc.enc_tlv(0x64, rc.enc_tlv(0x62, b'\x01\x02') + rc.enc_var(0x0340) + cut))):      # (an IDLE envelope: no fragment)
                 judge(ctx, dec_, w_, 'integer-cut-short-at-the-end-of-its-parent', steps=False)
+    # nine-octet Type / Length numbers whose top bit is set (2^63 and above), on unknown and on known elements, at the end and in the
+    # middle of each kind of packet: refused or skipped - within the step budget
+    nm9 = rc.enc_name([rc.comp(8, b'a')])
+    for big in (2**64 - 10, 2**63, 2**63 + 5, 2**64 - 1, 2**62):
+        nine = b'\xff' + big.to_bytes(8, 'big')
+        for tnum in (b'\xf0', b'\x15', b'\xf1', b'\x0c'):
+            for dec_, outer_t, rest in (('interest', 5, b''), ('interest', 5, rc.enc_tlv(0x0a, b'\x00\x00\x00\x01')), ('data', 6, b''),
+                                        ('data', 6, rc.enc_tlv(0x15, b'xy')), ('cert', 6, b''), ('lp', 0x64, rc.enc_tlv(0x50, b'\x05\x00'))):
+                judge(ctx, dec_, rc.enc_tlv(outer_t, (nm9 if dec_ != 'lp' else b'') + tnum + nine + rest), 'nine-octet-length-with-the-top-bit-set', steps=True)
+                judge(ctx, dec_, rc.enc_tlv(outer_t, (nm9 if dec_ != 'lp' else b'') + nine + b'\x00' + rest), 'nine-octet-type-with-the-top-bit-set', steps=True)
+        judge(ctx, 'name', rc.enc_tlv(7, b'\x08' + nine), 'nine-octet-length-with-the-top-bit-set', steps=True)
+        ctx.event('nine-octet-numbers-with-the-top-bit-set')
     # every combination of fragmentation headers (this library reassembles nothing: an envelope that says it is a piece is refused)
     inner = rc.make_data(gen.simple_name(rng), content=b'piece', content_type=0, sig_type=0, sig_value=bytes(32))
     for fi in (None, 0, 1, 2, 5, 255, 256, 2**32):
@@ -635,6 +647,7 @@ def run(ctx):
         ctx.event('valid-packet-at-the-end-of-the-run')
     ctx.need_event('step-monitored')
     ctx.need_event('valid-packet-amid-refusals')
+    ctx.need_event('nine-octet-numbers-with-the-top-bit-set')
     ctx.need_event('decoded-again-after-editing-the-first-result')
     ctx.need_event('certificate-with-additional-description')
     ctx.need_event('copy-monitored')
